@@ -236,6 +236,10 @@ func (t *TabularGraph) GetEdge(key string, load bool) *gdbi.Edge {
 				if strings.HasPrefix(src, edge.fromVertex.prefix) && strings.HasPrefix(dst, edge.toVertex.prefix) {
 					srcID := strings.TrimPrefix(src, edge.fromVertex.prefix)
 					dstID := strings.TrimPrefix(dst, edge.toVertex.prefix)
+					if srcID == "" || dstID == "" {
+						//link rows with an empty endpoint are not edges
+						continue
+					}
 
 					res, err := t.client.GetRowsByField(context.Background(),
 						edge.config.Data.Source,
@@ -260,7 +264,11 @@ func (t *TabularGraph) GetEdge(key string, load bool) *gdbi.Edge {
 								}
 							}
 						}
-						return out
+						if out != nil {
+							return out
+						}
+						//no such link row here: another edge source may share the label and vertex types
+						continue
 					}
 					log.Errorf("Row Error: %s", err)
 				}
